@@ -282,7 +282,7 @@ def run_totals(c, o):
                     xs = max(np.abs(np.array(pt[w], float)).max(), 1e-3)
                     if S == 0 and row == 0:
                         continue
-                    rt = 1e-4 if wingbox else 1e-5  # wingbox chains contain forward-difference (step 1e-6) partials declared by the repository
+                    rt = 5e-4 if wingbox else 1e-5  # wingbox chains contain forward-difference (step 1e-6, one-sided) partials declared by the repository: truncation error up to a few 1e-4 on meshes with short elements (measured per component in C01)
                     tol = rt * S + 20 * err[sl] + 1e-7 * row / xs
                     ok_fd = err[sl] <= 1e-2 * max(S, 1e-300)
                     diff = np.abs(a[sl] - est[sl])
